@@ -78,7 +78,7 @@ def witness_scens(ctx, producers=("simple", "erroring"), repeat=6):
     return out
 
 
-UDP = HARNESS + [os.path.join(vlib.HARNESS, "root", "abaco_udp_test.go")]
+UDP = HARNESS + [os.path.join(vlib.HARNESS, "root", "abaco_udp_test.go"), os.path.join(vlib.HARNESS, "root", "roach_test.go")]
 
 
 def run_driver(ctx, scens, tag="t", udp=False):
@@ -109,13 +109,13 @@ def run_driver(ctx, scens, tag="t", udp=False):
     if udp:
         # the real Abaco source over localhost UDP (free-running cycles, then cycles with the receiver goroutine gated): failed start without data, start with data, stop, restart
         tu = ctx.path("trace_%s_udp.ndjson" % tag)
-        rc, out = vlib.go_test(ctx, "", UDP, "TestVerifAbacoUDP$", env={"VERIF_OUT": tu}, timeout=600)
+        rc, out = vlib.go_test(ctx, "", UDP, "TestVerifAbacoUDP$|TestVerifRoachSelfEnd$", env={"VERIF_OUT": tu}, timeout=600)
         if rc != 0:
             raise vlib.MachineryError("abaco udp driver failed:\n" + out[-3000:])
         ev = vlib.read_ndjson(tp)
         nscen = max([e["scen"] for e in ev if e["ev"] == "Begin"] or [0])
         extra = vlib.read_ndjson(tu)
-        ev.append({"ev": "Begin", "scen": nscen + 1, "origin": "abaco-udp-localhost", "producer": "abaco-udp"})
+        ev.append({"ev": "Begin", "scen": nscen + 1, "origin": "udp-sources-localhost", "producer": "udp-sources"})
         gated = [e for e in extra if e["ev"] == "UDPGated"]
         if not gated or gated[0]["gated"] < 1:
             raise vlib.MachineryError("abaco udp driver: the receiver goroutine never reached its gate (hook AbacoUDP.loop missing?)")
